@@ -919,7 +919,7 @@ def compute_average_cell_count(x, normalize):
         return n_cells / n_unique_times
 
     if isinstance(normalize, dict):
-        return sum(normalize.values()) / n_unique_times
+        return sum(normalize[t.item()] for t in unique_times) / n_unique_times
 
     if isinstance(normalize, (list, ndarray, numpy_ndarray)):
         return arraysum(asarray(normalize)) / len(normalize)
